@@ -6,7 +6,7 @@ predicate (conjunction + multiplier r), root selection by the sort flag, panic e
 import roles
 import itertools
 
-import decode
+import decode2
 import exp
 import tt
 import mathlib as M
